@@ -136,6 +136,8 @@ def specs(tier, seed):
     pairs = rng.randn(n, 2, d) * scale
     if k % 7 == 3:       # correlated features
       pairs = pairs.dot(rng.randn(d, d))
+    if k % 3 == 1:       # a hub: one point shared by several pairs (the documented 'covariance' prior is that of the DISTINCT points)
+      pairs[1::3, 0] = pairs[0, 0]
     y = np.where(rng.rand(n) < (0.5, 0.7, 0.85)[int(rng.randint(3))], 1, -1)
     y[0], y[1] = 1, -1
     out.append(dict(index=k, d=d, prior=prior, regime=regime, pairs=pairs, y=y, alpha=ALPHAS[int(rng.randint(len(ALPHAS)))],
@@ -165,6 +167,10 @@ def build(spec):
     warnings.simplefilter('ignore')
     M0 = _initialize_metric_mahalanobis(spec['pairs'], prior, random_state=spec['prior_seed'], strict_pd=True,
                                         matrix_name='prior')
+  if spec['prior'] == 'covariance':
+    # independent of the initialiser: the documented meaning, inverse covariance of the distinct training points
+    pts = np.unique(spec['pairs'].reshape(-1, spec['d']), axis=0)
+    M0 = np.linalg.inv(np.atleast_2d(np.cov(pts, rowvar=False)))
   M0inv = np.linalg.inv(M0)
   M0inv = (M0inv + M0inv.T) / 2
   v = spec['pairs'][:, 0] - spec['pairs'][:, 1]
